@@ -384,8 +384,13 @@ def go_core(obs):
     return obs.split("\t!")[0]
 
 
+INCONCLUSIVE = ("race-child-timeout",)   # the -race child was merely slow (loaded machine): no verdict, counted
+
+
 def prop_violation(c, prop=None):
     """A concrete input on which the Go code contradicts the property."""
+    if c.go.startswith(INCONCLUSIVE):
+        return None
     if c.go.startswith("CRASH "):
         return "the Go process running the real code died on this input: " + c.go[6:]
     rule = (prop or {}).get("violation_if", {}).get(c.engine)
@@ -393,7 +398,8 @@ def prop_violation(c, prop=None):
         return "go observation matches /%s/: %s" % (rule, c.go[:200])
     if (prop or {}).get("ignore_spec", {}).get(c.engine):
         return None
-    if c.engine in (prop or {}).get("model_is_spec", []) and c.model not in ("-", "<missing>"):
+    if c.engine in (prop or {}).get("model_is_spec", []) and c.model not in ("-", "<missing>") \
+            and not c.model.startswith("MODEL-TIMEOUT"):
         # the evaluator model is the definition of the language for this property: a difference in
         # result, thrown value, ordered effects or final definitions is a violation on this input
         g, m = _prop_fields(go_core(c.go)), _prop_fields(c.model)
@@ -407,8 +413,10 @@ def prop_violation(c, prop=None):
 
 
 def corr_mismatch(c):
-    if c.model == "-":
+    if c.model == "-" or c.go.startswith(INCONCLUSIVE):
         return None
+    if c.model.startswith("MODEL-TIMEOUT") and not c.go.startswith(("HANG", "PANIC", "CRASH")):
+        return None   # the model gave no answer in time (counted in the evidence as model_timeouts): no comparison
     if c.go.startswith("HANG") and (c.model.startswith("OOF") or c.model.startswith("MODEL-TIMEOUT")):
         return None   # both diverge: outside every property's quantifier (terminating programs)
     if go_core(c.go) != c.model:
@@ -672,6 +680,8 @@ def write_evidence(ctx, cases, stats_all, violations, corr, known_hit):
             "samples": samples, "distribution": dict(top),
             "engines": [e["name"] for e in prop["engines"]],
             "known_findings_hit": sorted(known_hit),
+            "model_timeouts": sum(1 for c in cases if c.model.startswith("MODEL-TIMEOUT")),
+            "inconclusive_race_children": sum(1 for c in cases if c.go.startswith(INCONCLUSIVE)),
             "exhaustive": False,
             "explanation": prop.get("explanation", ""),
         },
